@@ -5,12 +5,12 @@ Open Scope N_scope.
 (* The property as stated: for every request the service program is given the same request, and for
    every outcome of the program the client receives the same status, headers and body. *)
 Definition C41_statement : Prop :=
-  (forall q, child_view q = q) /\ (forall o, child_wire o = inproc_wire o).
+  (forall q, child_view q = inproc_view q) /\ (forall o, child_wire o = inproc_wire o).
 
 (* A request survives the trip to the child exactly when it is representable: every string is
    well-formed UTF-8 and every URL part is a string. *)
 Theorem C41_codec_roundtrip_request_partial :
-  forall q : view, req_representable q = true -> child_view q = q.
+  forall q : view, req_representable q = true -> child_view q = inproc_view q.
 Proof. exact request_roundtrip. Qed.
 
 (* An outcome reaches the client unchanged when it is representable: the request did not ask for
@@ -20,6 +20,15 @@ Theorem C41_codec_roundtrip_response_partial :
   forall o : outcome, resp_representable o = true -> child_wire o = inproc_wire o.
 Proof. exact response_roundtrip. Qed.
 
+(* The four kinds of caller - anonymous, password, accepted bearer token, bearer token presented but
+   rejected (token present, not authenticated) - are reported to the service with the same
+   req.Authentication in both modes. *)
+Theorem C41_caller_kind :
+  forall authenticated token_presented : bool,
+    authn_child authenticated token_presented = authn_inproc authenticated token_presented /\
+    (authenticated = false -> authn_child authenticated token_presented = 0).
+Proof. intros a b. split; [apply authn_agree | intros ->; reflexivity]. Qed.
+
 (* The fields for which the trip is not the identity (each replayed on the real code). *)
 Theorem C41_refuted : ~ C41_statement.
 Proof. intros [_ H]. exact (multi_header_differs (H o_multi)). Qed.
@@ -28,12 +37,12 @@ Theorem C41_refuted_witnesses :
   child_wire o_multi <> inproc_wire o_multi /\        (* a header with two values arrives as one joined value *)
   child_wire o_binary <> inproc_wire o_binary /\      (* bytes that are not UTF-8 arrive as U+FFFD *)
   child_wire o_json_ct <> inproc_wire o_json_ct /\    (* Accept: application/json: Content-Type is not sent *)
-  child_view q_intpart <> q_intpart.                  (* a non-string URL part arrives as its text *)
+  child_view q_intpart <> inproc_view q_intpart.                  (* a non-string URL part arrives as its text *)
 Proof. repeat split; [exact multi_header_differs | exact binary_body_differs | exact json_content_type_differs | exact int_part_differs]. Qed.
 
 Example C41_nonvacuous :
   req_representable {| v_method := [80;79;83;84]; v_headers := [([88;45;65], [[49]; [50]])]; v_params := [([113], [[195;169]])];
                        v_parts := [([105;100], UStr [52;50])]; v_body := [123;34;226;130;172;34;125];
-                       v_user := [98;111;98]; v_admin := false; v_auth := true; v_bearer := true; v_perms := [[114]] |} = true /\
+                       v_user := [98;111;98]; v_admin := false; v_auth := false; v_bearer := true; v_perms := [[114]]; v_authn := 0 |} = true /\
   resp_representable {| o_status := 201; o_headers := [([88;45;66], [[121]])]; o_body := [226;130;172]; o_json := false |} = true.
 Proof. vm_compute. auto. Qed.
